@@ -26,6 +26,9 @@ func (i *interpreter) compact(v value) value {
 	if s.sort == SInt {
 		n.op = "" // interval travels with the Sym itself
 	}
+	if s.op == "concat" {
+		n.op, n.a = "concat", s.a // keep the segment structure for syntactic reasoning
+	}
 	return n
 }
 
